@@ -1,4 +1,4 @@
-import CalVerif.Lemmas.Formats
+import CalVerif.Lemmas.FormatsCompose
 /-! # C10 — a number is typed DateTime exactly when its cell style is a date/time format
     Property theorems (unit level: the format classifier, the built-in id tables, the value wrapping). -/
 namespace Formats
@@ -25,17 +25,7 @@ theorem builtin_tables_agree (n : Nat) : builtinById (decimal n) = builtinByCode
 
 /-- every id is classified as ECMA-376 §18.8.30 documents it: 14–22, 45, 47 date/time, 46 elapsed time, every
     other id (in particular every id outside 0–49) not a date -/
-theorem builtin_matches_documented (n : Nat) : builtinByCode n = documentedClass n := by
-  by_cases h : n < 1000
-  · have hh : (List.range 1000).all (fun n => builtinByCode n == documentedClass n) = true := by decide +kernel
-    exact eq_of_beq (List.all_eq_true.mp hh n (List.mem_range.mpr h))
-  · have hc : ∀ row ∈ Gen.builtinByCodeTable, row.2.1 < 1000 := by decide
-    have hd : Gen.builtinByCodeDefault = .other := by decide
-    have h2 : documentedClass n = .other := by
-      unfold documentedClass
-      rw [if_neg (by omega), if_neg (by omega)]
-    unfold builtinByCode
-    rw [lookupCode_default _ _ _ (fun row hr => by have := hc row hr; omega), hd, h2]
+theorem builtin_matches_documented (n : Nat) : builtinByCode n = documentedClass n := builtinByCode_documented n
 
 /-- each language-independent built-in id classifies exactly like its documented format string under the scanner
     (so a workbook that spells a built-in format out as a custom format gets the same typing) -/
@@ -176,10 +166,6 @@ theorem scanner_no_panic (s : List Char) (msg : String) : detect s ≠ .panic ms
 /-- `detect` is total: every text gets a classification -/
 theorem scanner_total (s : List Char) : ∃ c, detect s = .ok c := scan_total St.init s
 
-/-- the earlier, weaker form (texts with at most 255 `[`), kept under its name for `Props/C06.lean` -/
-theorem scanner_no_panic_partial (s : List Char) (_h : s.count '[' ≤ 255) (msg : String) : detect s ≠ .panic msg :=
-  scanner_no_panic s msg
-
 /-- deep nesting is read as nesting: 300 `[`, 300 `]`, then `d` is a date format; 256 or 300 unclosed `[` are
     classified (`Other`: an `h]` at depth 300 closes nothing at depth 1), not a panic; `[h` + 300 balanced pairs + `]`
     still closes the elapsed unit at depth 1 (the bracket arms leave the `hms` flag alone) -/
@@ -206,65 +192,91 @@ theorem style_lookup_xlsx (defs : List (List UInt8 × Fmt)) (hwf : ∀ d ∈ def
         | some id =>
           match lastDef defs id with
           | some f => classify f
-          | none => builtinById id) := by
-  have hfil : (defs.map fun d => (d.1, render d.2)).filter (fun d => !d.2.isEmpty) = defs.map fun d => (d.1, render d.2) := by
-    rw [List.filter_eq_self]
-    intro d hd
-    obtain ⟨d0, hd0, rfl⟩ := List.mem_map.mp hd
-    have := hne d0 hd0
-    cases h : render d0.2 with
-    | nil => exact absurd h this
-    | cons _ _ => rfl
-  induction xfs with
-  | nil => rfl
-  | cons xf xfs ih =>
-    simp only [xlsxStyles, hfil, ih, List.map_cons]
-    cases xf with
-    | none => rfl
-    | some id =>
-      simp only [lastDef_map (fun f => render f) defs id]
-      cases hl : lastDef defs id with
-      | none => rfl
-      | some f =>
-        have hmem : ∃ d ∈ defs, d.2 = f := by
-          clear ih hfil hne hwf
-          induction defs with
-          | nil => simp [lastDef] at hl
-          | cons d ds ihd =>
-            simp only [lastDef] at hl
-            cases h2 : lastDef ds id with
-            | some v =>
-              rw [h2] at hl
-              obtain ⟨d', hd', he⟩ := ihd (by rw [h2]; exact hl)
-              exact ⟨d', by simp [hd'], he⟩
-            | none =>
-              rw [h2] at hl
-              by_cases hb : (d.1 == id) = true
-              · simp [hb] at hl; exact ⟨d, by simp, hl⟩
-              · simp [hb] at hl
-        obtain ⟨d, hd, rfl⟩ := hmem
-        simp only [Option.map_some, scanner_grammar d.2 (hwf d hd)]
+          | none => builtinById id) := xlsxStyles_wf defs hwf hne xfs
 
 theorem style_lookup_xlsb (defs : List (Nat × Fmt)) (hwf : ∀ d ∈ defs, WF d.2) (xfs : List Nat) :
     xlsbStyles (defs.map fun d => (d.1, render d.2)) xfs =
       .ok (xfs.map fun code =>
         match builtinByCode code with
         | .other => ((lastDef defs code).map classify).getD .other
-        | f => f) := by
-  simp only [xlsbStyles, detectAll_wf defs hwf, lastDef_map (fun f => classify f) defs]
-  rfl
+        | f => f) := xlsbStyles_wf defs hwf xfs
 
 theorem style_lookup_xls (defs : List (Nat × Fmt)) (hwf : ∀ d ∈ defs, WF d.2) (xfs : List Nat) :
     xlsStyles (defs.map fun d => (d.1, render d.2)) xfs =
       .ok (xfs.map fun code =>
         match lastDef defs code with
         | some f => classify f
-        | none => builtinByCode code) := by
-  simp only [xlsStyles, detectAll_wf defs hwf, lastDef_map (fun f => classify f) defs]
-  congr 1
-  apply List.map_congr_left
-  intro code _
-  cases lastDef defs code <;> rfl
+        | none => builtinByCode code) := xlsStyles_wf defs hwf xfs
+
+/-! ## the property's sentence: a numeric cell is DateTime exactly when its style's format is a date format
+
+    `Lemmas/FormatsCompose.lean` composes the style-table builders with the value wrapping
+    (`cell_typed_by_style_{xlsx,xlsb,xls}` and their `_i64` twins, on the logical style table, including built-in
+    ids, doubly defined ids and out-of-range style indices). Here the statement is specialised to the case the
+    property names: XF `i` refers to a custom format `f` of the grammar. -/
+
+/-- **datetime_iff_style**: in each of the three containers, for every well-formed custom format `f` of the
+    number-format grammar that cell XF `i` refers to (the last definition of its id; for xlsb the id must not be a
+    built-in date id, which xlsb never lets a custom definition override), a float cell with style index `i` comes
+    back as DateTime iff `classify f ≠ Other`, with the duration flavour iff `classify f = TimeDelta`, the same bits
+    and the workbook's date system; otherwise as the same float (`TypedBy`). The quantification is over the
+    grammar (`classify`), not over scanner outputs. -/
+theorem datetime_iff_style :
+    (∀ (defs : List (List UInt8 × Fmt)) (xfs : List (Option (List UInt8))) (formats : List CellFormat),
+      (∀ d ∈ defs, WF d.2) → (∀ d ∈ defs, render d.2 ≠ []) →
+      xlsxStyles (defs.map fun d => (d.1, render d.2)) xfs = .ok formats →
+      ∀ (i : Nat) (id : List UInt8) (f : Fmt), xfs[i]? = some (some id) → lastDef defs id = some f →
+      ∀ (v : UInt64) (d1904 : Bool), TypedBy f (formatF64 v formats[i]? d1904) v d1904) ∧
+    (∀ (defs : List (Nat × Fmt)) (xfs : List Nat) (formats : List CellFormat),
+      (∀ d ∈ defs, WF d.2) → xlsbStyles (defs.map fun d => (d.1, render d.2)) xfs = .ok formats →
+      ∀ (i code : Nat) (f : Fmt), xfs[i]? = some code → lastDef defs code = some f → documentedClass code = .other →
+      ∀ (v : UInt64) (d1904 : Bool), TypedBy f (formatF64 v formats[i]? d1904) v d1904) ∧
+    (∀ (defs : List (Nat × Fmt)) (xfs : List Nat) (formats : List CellFormat),
+      (∀ d ∈ defs, WF d.2) → xlsStyles (defs.map fun d => (d.1, render d.2)) xfs = .ok formats →
+      ∀ (i code : Nat) (f : Fmt), xfs[i]? = some code → lastDef defs code = some f →
+      ∀ (v : UInt64) (d1904 : Bool), TypedBy f (formatF64 v formats[i]? d1904) v d1904) := by
+  refine ⟨?_, ?_, ?_⟩
+  · intro defs xfs formats hwf hne h i id f hx hf v d
+    apply typedBy_of_eq
+    rw [(cell_typed_by_style_xlsx defs hwf hne xfs formats h i v d).2, hx]
+    simp [logicalXlsx, hf]
+  · intro defs xfs formats hwf h i code f hx hf hb v d
+    apply typedBy_of_eq
+    rw [(cell_typed_by_style_xlsb defs hwf xfs formats h i v d).2, hx]
+    simp [logicalXlsb, hf, hb]
+  · intro defs xfs formats hwf h i code f hx hf v d
+    apply typedBy_of_eq
+    rw [(cell_typed_by_style_xls defs hwf xfs formats h i v d).2, hx]
+    simp [logicalXls, hf]
+
+/-- a cell whose XF uses a built-in id with no custom definition is typed by the documented table, and a style
+    index past the XF list leaves the number plain (xls shown; the other two are the same lemma) -/
+theorem datetime_iff_builtin_style_xls (defs : List (Nat × Fmt)) (hwf : ∀ d ∈ defs, WF d.2) (xfs : List Nat)
+    (formats : List CellFormat) (h : xlsStyles (defs.map fun d => (d.1, render d.2)) xfs = .ok formats)
+    (i : Nat) (v : UInt64) (d1904 : Bool) :
+    (∀ code, xfs[i]? = some code → lastDef defs code = none →
+      formatF64 v formats[i]? d1904 = typedF64 (documentedClass code) v d1904) ∧
+    (xfs.length ≤ i → formatF64 v formats[i]? d1904 = .float v) := by
+  have hc := (cell_typed_by_style_xls defs hwf xfs formats h i v d1904).2
+  refine ⟨fun code hx hn => ?_, fun hi => ?_⟩
+  · rw [hc, hx]; simp [logicalXls, hn]
+  · rw [hc, List.getElem?_eq_none hi]; rfl
+
+/-- non-vacuity of `datetime_iff_style`: format 164 = `[Red]"Due _"dd/mm/yyyy`, 165 = `[h]:mm`, XFs (0, 164, 165),
+    in all three containers: the styled cells are a DateTime and a duration, the General cell stays a float -/
+example :
+    let due : Fmt := { first := [.brk "Red".toList, .lit "Due _".toList, .dateTok "dd".toList, .num '/',
+                                 .dateTok "mm".toList, .num '/', .dateTok "yyyy".toList], rest := [] }
+    let el : Fmt := { first := [.elapsed "h".toList, .num ':', .dateTok "mm".toList], rest := [] }
+    let defs : List (Nat × Fmt) := [(164, due), (165, el)]
+    (∀ d ∈ defs, WF d.2) ∧
+    xlsStyles (defs.map fun d => (d.1, render d.2)) [0, 164, 165] = .ok [.other, .dateTime, .timeDelta] ∧
+    xlsbStyles (defs.map fun d => (d.1, render d.2)) [0, 164, 165] = .ok [.other, .dateTime, .timeDelta] ∧
+    xlsxStyles (defs.map fun d => (decimal d.1, render d.2)) [some (decimal 0), some (decimal 164), some (decimal 165)]
+      = .ok [.other, .dateTime, .timeDelta] ∧
+    lastDef defs 165 = some el ∧ documentedClass 165 = .other ∧
+    formatF64 7 ([CellFormat.other, .dateTime, .timeDelta])[2]? true = .dateTime (.bits 7) .timeDelta true := by
+  decide +kernel
 
 /-- a workbook with `[h]:mm` as format 164, `"Due _"dd/mm/yyyy` as 165 and id 14 redefined as `0.0`:
     XFs (0, 14, 164, 165, 22, 200) are typed as the property says; xlsb keeps the built-in meaning of 14 -/
